@@ -614,10 +614,23 @@ def sinks(cfg, crate, rep):
                 elif m in ("write_utctime", "write_generalized_time"):
                     n += 1
                     time_sink(cfg, art, node, arg, cond, where, rep)
-            if node["t"] in ("Set", "SetOf", "Seq") and node.get("nexts") is not None and node["t"] in ("Set", "SetOf"):
+            if node.get("nexts") is not None and (node["t"] in ("Set", "SetOf") or (node["t"] == "Tagged" and node.get("was_implicit_over") in ("Set", "SetOf"))):
                 n += 1
                 kids = S.flatten(node["c"])
                 ok = len(kids) == len(node["nexts"])
+                if ok:
+                    # ... on exactly the paths on which it was obtained: `let w = set.next(); if c { w.write(..) }` leaves an
+                    # empty element behind when c is false
+                    for (kc, kreps, kn), nx in zip(kids, node["nexts"]):
+                        nc = nx[0]
+                        same = (kc is nc) or (kc == nc)
+                        if not same:
+                            try:
+                                same = not F.counterexamples(kc, nc, "equiv")
+                            except ValueError:
+                                same = False
+                        if not same:
+                            ok = False
                 rep.ob("C10.sinks", "%s|%s-elements|%s" % (cfg, node["t"], fn.split("::")[-1]), ok, "every element writer obtained from a SET / SET OF writer is written to (yasna asserts non-empty elements)", expected=len(node["nexts"]), found=len(kids), sp=node.get("sp"))
     rep.floor("C10.sinks", "asserting sink call sites in the artefact trees (%s)" % cfg, n, 40)
 
